@@ -20,6 +20,12 @@ Proof. reflexivity. Qed.
 Lemma fix_committed_under_lock : proposal_committed_under_lock = true.
 Proof. reflexivity. Qed.
 
+(* pendingReadIndex.add keeps a copy of the slice it is handed: the model's batches own their
+   request lists ([taken] is moved into the batch), they never alias the read queue's two
+   reusable buffers that later client reads overwrite *)
+Lemma read_add_copies : read_add_copies_its_argument = true.
+Proof. reflexivity. Qed.
+
 (* every table method the model treats as ONE step is one critical section
    (Lock; defer Unlock at the top) in the source *)
 Definition modelled_atomic : list string :=
